@@ -16,6 +16,16 @@ pub mod x03 {
     pub fn run(c: &[u64]) -> Vec<u64> {
         run_case(c).unwrap_or(vec![0])
     }
+    /// C03's own generators for the cases in which a negotiated name is LOOKED UP: mode 5 (a real
+    /// `ProtocolSet`: `protocol_codec` under every advertised name, `report_substream_open` under
+    /// fallback names) and mode 6 (the transports' `negotiate_protocol`)
+    pub fn gen_lookup(rng: &mut crate::util::Rng) -> Vec<u64> {
+        if rng.chance(50) {
+            fallback::gen(rng)
+        } else {
+            gen_mode6(rng)
+        }
+    }
 }
 #[allow(dead_code, unused_imports, unused_variables, clippy::all)]
 pub mod x04 {
